@@ -19,3 +19,106 @@ Proof.
   intros H. unfold astep, alive. cbn [fst]. rewrite H. cbn [is_dead negb andb]. split; [reflexivity|].
   intros h Hh. exact Hh.
 Qed.
+
+(** * the two-state abstraction: legality only depends on which locations are alive *)
+Definition aliveness := loc -> bool.
+Definition fupd (a : aliveness) (l : loc) (b : bool) : aliveness := fun x => if loc_eqb l x then b else a x.
+Definition bsrc_ok (a : aliveness) (h : how) : bool := match src_of h with None => true | Some s => a s end.
+Definition bstep (a : aliveness) (e : event) : bool * aliveness :=
+  match e with
+  | Construct l h => (negb (a l) && bsrc_ok a h, fupd a l true)
+  | Assign l h => (a l && bsrc_ok a h, a)
+  | Destroy l => (a l, fupd a l false)
+  | Use l => (a l, a)
+  end.
+Fixpoint brun (a : aliveness) (evs : list event) : bool * aliveness :=
+  match evs with
+  | [] => (true, a)
+  | e :: t => let r := bstep a e in let r2 := brun (snd r) t in (fst r && fst r2, snd r2)
+  end.
+
+Definition same (a b : aliveness) : Prop := forall x, a x = b x.
+
+Lemma same_refl a : same a a. Proof. intros x; reflexivity. Qed.
+Lemma same_sym a b : same a b -> same b a. Proof. intros H x; symmetry; apply H. Qed.
+Lemma same_trans a b c : same a b -> same b c -> same a c. Proof. intros H1 H2 x; rewrite H1; apply H2. Qed.
+
+Lemma fupd_same a b l v : same a b -> same (fupd a l v) (fupd b l v).
+Proof. intros H x. unfold fupd. destruct (loc_eqb l x); [reflexivity|apply H]. Qed.
+
+Lemma bsrc_ok_same a b h : same a b -> bsrc_ok a h = bsrc_ok b h.
+Proof. intros H. unfold bsrc_ok. destruct (src_of h); [apply H|reflexivity]. Qed.
+
+Lemma bstep_same a b e : same a b -> fst (bstep a e) = fst (bstep b e) /\ same (snd (bstep a e)) (snd (bstep b e)).
+Proof.
+  intros H. destruct e as [l h|l h|l|l]; cbn [bstep fst snd].
+  - rewrite (H l), (bsrc_ok_same a b h H). split; [reflexivity|apply fupd_same; exact H].
+  - rewrite (H l), (bsrc_ok_same a b h H). split; [reflexivity|exact H].
+  - rewrite (H l). split; [reflexivity|apply fupd_same; exact H].
+  - rewrite (H l). split; [reflexivity|exact H].
+Qed.
+
+Lemma brun_same evs : forall a b, same a b -> fst (brun a evs) = fst (brun b evs) /\ same (snd (brun a evs)) (snd (brun b evs)).
+Proof.
+  induction evs as [|e t IH]; intros a b H; cbn [brun fst snd].
+  - split; [reflexivity|exact H].
+  - destruct (bstep_same a b e H) as [H1 H2]. destruct (IH _ _ H2) as [H3 H4].
+    rewrite H1, H3. split; [reflexivity|exact H4].
+Qed.
+
+Lemma brun_app a e1 e2 :
+  brun a (e1 ++ e2) = (fst (brun a e1) && fst (brun (snd (brun a e1)) e2), snd (brun (snd (brun a e1)) e2)).
+Proof.
+  revert a. induction e1 as [|e t IH]; intros a; cbn [app brun fst snd].
+  - destruct (brun a e2); reflexivity.
+  - rewrite IH. cbn [fst snd]. rewrite andb_assoc. reflexivity.
+Qed.
+
+(* the real automaton follows the abstraction as long as the run is legal *)
+Lemma astep_bstep m a e : same (alive m) a ->
+  fst (astep m e) = fst (bstep a e) /\ (fst (bstep a e) = true -> same (alive (snd (astep m e))) (snd (bstep a e))).
+Proof.
+  intros H.
+  assert (Hsrc : forall h, src_ok m h = bsrc_ok a h).
+  { intros h. unfold src_ok, bsrc_ok. destruct (src_of h); [apply H|reflexivity]. }
+  assert (Hafter : forall h, bsrc_ok a h = true -> same (alive (after_src m h)) a).
+  { intros h Hh x. destruct h as [v|s|s]; cbn [after_src]; try apply H.
+    unfold bsrc_ok in Hh. cbn [src_of] in Hh. rewrite (H s), Hh.
+    unfold alive at 1. rewrite lookup_update. destruct (loc_eqb_spec s x) as [->|_]; [cbn; symmetry; exact Hh|apply H]. }
+  destruct e as [l h|l h|l|l]; cbn [astep bstep fst snd].
+  - rewrite (H l), Hsrc. split; [reflexivity|]. intros Hl. apply andb_prop in Hl. destruct Hl as [_ Hh].
+    intros x. unfold alive at 1. rewrite lookup_update. unfold fupd.
+    destruct (loc_eqb l x); [reflexivity|]. apply (Hafter h Hh).
+  - rewrite (H l), Hsrc. split; [reflexivity|]. intros Hl. apply andb_prop in Hl. destruct Hl as [Hl Hh].
+    intros x. unfold alive at 1. rewrite lookup_update.
+    destruct (loc_eqb_spec l x) as [->|_]; [cbn; symmetry; exact Hl|]. apply (Hafter h Hh).
+  - rewrite (H l). split; [reflexivity|]. intros _ x. unfold alive at 1. rewrite lookup_update. unfold fupd.
+    destruct (loc_eqb l x); [reflexivity|apply H].
+  - rewrite (H l). split; [reflexivity|]. intros _. exact H.
+Qed.
+
+Lemma arun_brun evs : forall m a, same (alive m) a -> fst (brun a evs) = true ->
+  fst (arun m evs) = true /\ same (alive (snd (arun m evs))) (snd (brun a evs)).
+Proof.
+  induction evs as [|e t IH]; intros m a H Hb; cbn [arun brun fst snd] in *.
+  - split; [reflexivity|exact H].
+  - apply andb_prop in Hb. destruct Hb as [Hb1 Hb2].
+    destruct (astep_bstep m a e H) as [H1 H2]. specialize (H2 Hb1).
+    destruct (IH _ _ H2 Hb2) as [H3 H4]. rewrite H1, Hb1, H3. split; [reflexivity|exact H4].
+Qed.
+
+Definition nothing : aliveness := fun _ => false.
+
+Lemma alive_nil : same (alive []) nothing.
+Proof. intros x. reflexivity. Qed.
+
+(* what the model-level theorems need: a legal abstract run from "nothing alive" gives wf_trace, and
+   if it ends with nothing alive, all_dead *)
+Lemma wf_of_brun evs : fst (brun nothing evs) = true -> wf_trace evs = true.
+Proof. intros H. unfold wf_trace. apply (arun_brun evs [] nothing alive_nil H). Qed.
+
+Lemma all_dead_of_brun evs : fst (brun nothing evs) = true -> same (snd (brun nothing evs)) nothing -> all_dead evs = true.
+Proof.
+  intros H Hn. unfold all_dead, final_state. apply all_dead_map_spec. intros l.
+  destruct (arun_brun evs [] nothing alive_nil H) as [_ Hs]. rewrite Hs. apply Hn.
+Qed.
